@@ -3350,14 +3350,15 @@ RCP<const Basic> beta(const RCP<const Basic> &x, const RCP<const Basic> &y)
 bool PolyGamma::is_canonical(const RCP<const Basic> &n,
                              const RCP<const Basic> &x)
 {
-    if (is_a_Number(*x) and not(down_cast<const Number &>(*x)).is_positive()) {
+    if (is_a<Integer>(*x) and not(down_cast<const Integer &>(*x)).is_positive()) {
         return false;
     }
     if (eq(*n, *zero)) {
         if (eq(*x, *one)) {
             return false;
         }
-        if (is_a<Rational>(*x)) {
+        if (is_a<Rational>(*x)
+            and down_cast<const Rational &>(*x).is_positive()) {
             auto x_ = rcp_static_cast<const Rational>(x);
             auto den = get_den(x_->as_rational_class());
             if (den == 2 or den == 3 or den == 4) {
@@ -3393,9 +3394,10 @@ RCP<const Basic> PolyGamma::create(const RCP<const Basic> &a,
 RCP<const Basic> polygamma(const RCP<const Basic> &n_,
                            const RCP<const Basic> &x_)
 {
-    // Only special values are being evaluated
-    if (is_a_Number(*x_)
-        and not(down_cast<const Number &>(*x_)).is_positive()) {
+    // Only special values are being evaluated; the poles are at the
+    // non-positive integers
+    if (is_a<Integer>(*x_)
+        and not(down_cast<const Integer &>(*x_)).is_positive()) {
         return ComplexInf;
     }
     if (is_a<Integer>(*n_) and is_a<Integer>(*x_)) {
@@ -3411,7 +3413,8 @@ RCP<const Basic> polygamma(const RCP<const Basic> &n_,
         if (eq(*x_, *one)) {
             return neg(EulerGamma);
         }
-        if (is_a<Rational>(*x_)) {
+        if (is_a<Rational>(*x_)
+            and down_cast<const Rational &>(*x_).is_positive()) {
             RCP<const Rational> x = rcp_static_cast<const Rational>(x_);
             const auto den = get_den(x->as_rational_class());
             const auto num = get_num(x->as_rational_class());
